@@ -18,7 +18,12 @@ static void on_abort(int s) { (void)s; if (armed) siglongjmp(jb, 1); _exit(99); 
 #define MAXH 100000
 static void *hptr[MAXH]; static int hid[MAXH]; static int nh;
 
-static int id_of(void *p) { for (int i = 1; i <= nh; i++) if (hptr[i] == p) return hid[i]; return -1; }
+/* pointer -> canonical id (first handle that had this address): open-addressing table, reset with the history */
+#define HT (1 << 18)
+static void *ht_key[HT]; static int ht_val[HT];
+static size_t ht_slot(void *p) { size_t h = (size_t)p; h ^= h >> 17; h *= 0x9E3779B97F4A7C15ULL; h ^= h >> 29; return h & (HT - 1); }
+static int id_of(void *p) { size_t s = ht_slot(p); while (ht_key[s]) { if (ht_key[s] == p) return ht_val[s]; s = (s + 1) & (HT - 1); } return -1; }
+static void id_put(void *p, int id) { size_t s = ht_slot(p); while (ht_key[s]) s = (s + 1) & (HT - 1); ht_key[s] = p; ht_val[s] = id; }
 
 static void print_state(void) {
     printf(" | n=%zu use=%zu list=", gc_state.stats.num_objects, gc_state.stats.current_usage);
@@ -43,7 +48,7 @@ int main(void) {
         while (n > 0 && (line[n-1] == '\n' || line[n-1] == '\r')) line[--n] = 0;
         char *save; char *cmd = strtok_r(line, " ", &save); if (!cmd) continue;
         char *t1 = strtok_r(NULL, " ", &save), *t2 = strtok_r(NULL, " ", &save);
-        if (!strcmp(cmd, "reset")) { gc_shutdown(); nh = 0; dead = 0; printf("reset\n"); continue; }
+        if (!strcmp(cmd, "reset")) { gc_shutdown(); nh = 0; dead = 0; memset(ht_key, 0, sizeof ht_key); printf("reset\n"); continue; }
         if (dead) { printf("skip\n"); continue; }
         armed = 1;
         if (sigsetjmp(jb, 1)) { armed = 0; dead = 1; printf("abort\n"); continue; }
@@ -51,6 +56,7 @@ int main(void) {
             void *p = gc_alloc((size_t)strtoull(t1, NULL, 10), (GCObjectType)atoi(t2));
             int id = id_of(p);
             nh++; hptr[nh] = p; hid[nh] = id > 0 ? id : nh;
+            if (id <= 0) id_put(p, nh);
             printf("ptr %d", hid[nh]);
         } else {
             int h = t1 ? atoi(t1) : 0; void *p = (h >= 1 && h <= nh) ? hptr[h] : NULL;
